@@ -12,6 +12,14 @@
 (*   fr2, ex2 : the same for g2                                            *)
 (*   found    : the mappings yielded so far (a bag: mapping -> count)      *)
 (*                                                                         *)
+(* Beyond the graph rules the loop has three optional feasibility rules,   *)
+(* all modelled here (instance fields stereo / changes switch them on):    *)
+(*   roles   : a bond to an already mapped neighbour keeps its reaction     *)
+(*             role (reaction graphs)                                       *)
+(*   stereo  : the descriptors completed by the new pair are carried onto   *)
+(*             equal descriptors (SMGStereo!DEq), and equally many          *)
+(*   changes : the same for (formed/broken/fleeting, descriptor) pairs      *)
+(*                                                                         *)
 (* The matching order is a PARAMETER: any order in which every atom either *)
 (* is adjacent to an earlier atom or starts a new connected component      *)
 (* after the previous ones are exhausted (what _matching_order produces).  *)
@@ -20,9 +28,10 @@
 (* and at termination  found = exactly the label/adjacency-preserving      *)
 (* bijections, each once.                                                  *)
 (***************************************************************************)
-EXTENDS Integers, Sequences, FiniteSets, TLC
+EXTENDS SMGStereo
 
-VARIABLES P,             \* the problem instance (never changes): [n1, n2, adj1, adj2, lab1, lab2, order]
+VARIABLES P,             \* the problem instance (never changes): [n1, n2, adj1, adj2, lab1, lab2, order,
+                         \*    stereo, changes, st1, st2, sc1, sc2, rl1, rl2]
           stack, mapping, fr1, ex1, fr2, ex2, found, done
 vars == <<P, stack, mapping, fr1, ex1, fr2, ex2, found, done>>
 
@@ -33,6 +42,15 @@ Adj2 == P.adj2
 Lab1 == P.lab1       \* [atom -> label]
 Lab2 == P.lab2
 Order == P.order     \* matching order: sequence of the atoms of g1
+
+St1 == P.st1         \* descriptors of g1 / g2 (sets of [cls, atoms, par])
+St2 == P.st2
+Sc1 == P.sc1         \* stereo changes of g1 / g2 (sets of <<change, descriptor>>)
+Sc2 == P.sc2
+Role1(b) == IF b \in DOMAIN P.rl1 THEN P.rl1[b] ELSE "none"      \* reaction role of a bond (a two-element set)
+Role2(b) == IF b \in DOMAIN P.rl2 THEN P.rl2[b] ELSE "none"
+(* the fields of a plain (molecule graph, no stereo) instance *)
+Plain == [stereo |-> FALSE, changes |-> FALSE, st1 |-> {}, st2 |-> {}, sc1 |-> {}, sc2 |-> {}, rl1 |-> <<>>, rl2 |-> <<>>]
 
 Dom(f) == DOMAIN f
 Img(f) == { f[x] : x \in DOMAIN f }
@@ -52,6 +70,25 @@ BagLab2(S) == [l \in { Lab2[x] : x \in S } |-> Cardinality({ x \in S : Lab2[x] =
 Feasible(u, v, f1, e1, f2, e2) ==
    /\ BagLab1({ n \in Adj1[u] : n \in f1 /\ n \notin e1 }) = BagLab2({ n \in Adj2[v] : n \in f2 /\ n \notin e2 })
    /\ BagLab1({ n \in Adj1[u] : n \in e1 }) = BagLab2({ n \in Adj2[v] : n \in e2 })
+
+(* the optional rules, evaluated like _graph_feasibility with u -> v already in the mapping m *)
+RealOf(d) == SeqRange(d.atoms) \ {NoAtom}
+MapDesc(d, m) == [d EXCEPT !.atoms = [i \in DOMAIN @ |-> IF @[i] = NoAtom THEN NoAtom ELSE m[@[i]]]]
+RoleF(u, v, m) ==          \* _bond_change_feasibility
+   \A n \in Adj1[u] : n \in Dom(m) => Role1({u, n}) = Role2({v, m[n]})
+StereoF(u, v, m) ==        \* _stereo_feasibility
+   LET A == { d \in St1 : u \in RealOf(d) /\ RealOf(d) \subseteq Dom(m) }
+       B == { d \in St2 : v \in RealOf(d) /\ RealOf(d) \subseteq Img(m) } IN
+   /\ Cardinality(A) = Cardinality(B)
+   /\ \A d \in A : \E e \in B : DEq(MapDesc(d, m), e)
+ChangeF(u, v, m) ==        \* _stereo_change_feasibility (a set comparison; parities specified)
+   LET A == { x \in Sc1 : u \in RealOf(x[2]) /\ RealOf(x[2]) \subseteq Dom(m) }
+       B == { x \in Sc2 : v \in RealOf(x[2]) /\ RealOf(x[2]) \subseteq Img(m) } IN
+   /\ \A x \in A : \E y \in B : x[1] = y[1] /\ DEq(MapDesc(x[2], m), y[2])
+   /\ \A y \in B : \E x \in A : x[1] = y[1] /\ DEq(MapDesc(x[2], m), y[2])
+FeasibleX(u, v, m) == /\ RoleF(u, v, m)
+                      /\ P.stereo => StereoF(u, v, m)
+                      /\ P.changes => ChangeF(u, v, m)
 
 (* _sanity_check_and_init: sizes, degree sequences and label counts must agree, else nothing is yielded *)
 DegBag1 == [d \in { Cardinality(Adj1[a]) : a \in N1 } |-> Cardinality({ a \in N1 : Cardinality(Adj1[a]) = d })]
@@ -132,7 +169,7 @@ Try(v) ==
    /\ LET u == Top[1]
           rest == <<u, Top[2] \ {v}>>
           m2 == mapping @@ (u :> v) IN
-      IF Feasible(u, v, fr1, ex1, fr2, ex2)
+      IF Feasible(u, v, fr1, ex1, fr2, ex2) /\ FeasibleX(u, v, m2)
         THEN IF Cardinality(Dom(m2)) = Cardinality(N1)
                THEN \* yield, then undo the pair
                     /\ found' = Bump(found, m2)
@@ -165,14 +202,24 @@ PartialIso ==
    /\ \A x, y \in Dom(mapping) : x # y => mapping[x] # mapping[y]
    /\ \A x \in Dom(mapping) : Lab1[x] = Lab2[mapping[x]]
    /\ \A x, y \in Dom(mapping) : (y \in Adj1[x]) = (mapping[y] \in Adj2[mapping[x]])
+   /\ \A x \in Dom(mapping) : \A y \in Adj1[x] \cap Dom(mapping) : Role1({x, y}) = Role2({mapping[x], mapping[y]})
+   /\ P.stereo => \A d \in St1 : RealOf(d) \subseteq Dom(mapping) => \E e \in St2 : DEq(MapDesc(d, mapping), e)
 StackShape ==
    /\ Dom(mapping) = { stack[k][1] : k \in 1..(Len(stack) - 1) }
    /\ \A k \in 1..Len(stack) : stack[k][1] = Order[k]
 
+(* what a full mapping has to preserve besides labels and adjacency *)
+Preserved(f) ==
+   /\ \A x \in N1 : \A y \in Adj1[x] : Role1({x, y}) = Role2({f[x], f[y]})
+   /\ P.stereo => /\ Cardinality(St1) = Cardinality(St2)
+                  /\ \A d \in St1 : \E e \in St2 : DEq(MapDesc(d, f), e)
+   /\ P.changes => /\ \A x \in Sc1 : \E y \in Sc2 : x[1] = y[1] /\ DEq(MapDesc(x[2], f), y[2])
+                   /\ \A y \in Sc2 : \E x \in Sc1 : x[1] = y[1] /\ DEq(MapDesc(x[2], f), y[2])
 Bijections == { f \in [N1 -> N2] :
                   /\ \A x, y \in N1 : x # y => f[x] # f[y]
                   /\ \A x \in N1 : Lab1[x] = Lab2[f[x]]
-                  /\ \A x, y \in N1 : (y \in Adj1[x]) = (f[y] \in Adj2[f[x]]) }
+                  /\ \A x, y \in N1 : (y \in Adj1[x]) = (f[y] \in Adj2[f[x]])
+                  /\ Preserved(f) }
 AllIsos == IF Cardinality(N1) # Cardinality(N2) THEN {} ELSE Bijections
 Exact == done => /\ DOMAIN found = AllIsos
                  /\ \A m \in DOMAIN found : found[m] = 1
